@@ -420,7 +420,7 @@ def run_domain(prop, tier, seed, dom, exe, n, known, shrink_ok, base_answers):
                 expected[l2] = list(zip(keep, a.split(" ; ")))
         examine(res, prop, dom, exe, stream, "inj-diff", il, ans2, diff_oracle_factory(expected), known, shrink_ok=False)
         # (iv) twins: a copy made by assignment and its original see the same operations
-        tl = [x for x in (X.twin(l, rng) for l in lines) if x]
+        tl = X.twin_scripted(rng, 40 if tier == "quick" else 600) + [x for x in (X.twin(l, rng) for l in lines) if x]
         ta = run_cases(exe, name, tl, os.path.join(outd, stream + "-twin.cases"))
         examine(res, prop, dom, exe, stream, "twin", tl, ta, X.twin_oracle, known, shrink_ok=False)
         st["twin_cases"] = len(tl)
